@@ -4,14 +4,28 @@ VARIABLES hist, done
 gvars == <<boot, items, rd, cx, nops, partial, hist, done>>
 Cmd(c, id, ver, td, r, op) == [c |-> c, id |-> id, ver |-> ver, td |-> td, r |-> r, op |-> op]
 Rec(x) == hist' = Append(hist, x) /\ UNCHANGED done
+(* weighted choice of the action class; contexts prefer cached running resources *)
+GAppend == \E id \in Ids, v \in Vals : CAppend(id, v) /\ Rec(Cmd("append", id, v.ver, v.td, 0, ""))
+GBoot == MarkBoot /\ Rec(Cmd("boot", 0, 0, FALSE, 0, ""))
+GRead == \E r \in Readers, op \in {"get", "list"}, id \in Ids : Read(r, op, id) /\ Rec(Cmd("read", id, 0, FALSE, r, op))
+GPut == \E id \in Ids, v \in Vals : PutRes(id, v) /\ Rec(Cmd("put", id, v.ver, v.td, 0, ""))
+GPutTd == \E id \in Ids, v \in {x \in Vals : x.td} : PutRes(id, v) /\ Rec(Cmd("put", id, v.ver, v.td, 0, ""))
+GRemove == \E id \in Ids : Remove(id) /\ Rec(Cmd("remove", id, 0, FALSE, 0, ""))
+GCtxRunning == \E id \in {i \in Ids : i \in DOMAIN items /\ ~items[i].td} : NewCtx(id) /\ Rec(Cmd("ctx", id, 0, FALSE, 0, ""))
+GCtx == \E id \in Ids : NewCtx(id) /\ Rec(Cmd("ctx", id, 0, FALSE, 0, ""))
+GCancel == \E n \in 1..3 : CancelParent(n) /\ Rec(Cmd("cancelctx", n, 0, FALSE, 0, ""))
+GAck == \E r \in Readers : Ack(r) /\ UNCHANGED <<hist, done>>
 GNext ==
-  \/ \E id \in Ids, v \in Vals : CAppend(id, v) /\ Rec(Cmd("append", id, v.ver, v.td, 0, ""))
-  \/ \E id \in Ids, v \in Vals : PutRes(id, v) /\ Rec(Cmd("put", id, v.ver, v.td, 0, ""))
-  \/ MarkBoot /\ Rec(Cmd("boot", 0, 0, FALSE, 0, ""))
-  \/ \E id \in Ids : Remove(id) /\ Rec(Cmd("remove", id, 0, FALSE, 0, ""))
-  \/ \E id \in Ids : NewCtx(id) /\ Rec(Cmd("ctx", id, 0, FALSE, 0, ""))
-  \/ \E r \in Readers, op \in {"get", "list"}, id \in Ids : Read(r, op, id) /\ Rec(Cmd("read", id, 0, FALSE, r, op))
-  \/ \E r \in Readers : Ack(r) /\ UNCHANGED <<hist, done>>
+  \E coin \in {RandomElement(1..12)} :
+    IF ~boot /\ coin <= 4 THEN GAppend \/ GBoot
+    ELSE IF ~boot THEN GBoot \/ GRead
+    ELSE IF coin <= 2 THEN GPut
+    ELSE IF coin <= 3 THEN GRemove \/ GPut
+    ELSE IF coin <= 6 THEN (IF Cardinality(cx) < 3 THEN (IF \E i \in Ids : i \in DOMAIN items /\ ~items[i].td THEN GCtxRunning ELSE GCtx) ELSE GPutTd)
+    ELSE IF coin <= 8 THEN (IF \E c \in cx : ~c.cancelled THEN GCancel ELSE GPutTd)
+    ELSE IF coin <= 9 THEN GPutTd \/ GRemove
+    ELSE IF coin <= 10 THEN (IF \E r \in Readers : rd[r].st = "idle" THEN GRead ELSE GAck)
+    ELSE GAck \/ GPut
 Finish == ~done /\ PrintT(<<"BEH", ToJson(hist)>>) /\ done' = TRUE /\ UNCHANGED vars /\ UNCHANGED hist
 GenInit == Init /\ hist = <<>> /\ done = FALSE
 GenNext == IF nops >= MaxOps THEN Finish ELSE ~done /\ GNext
